@@ -180,6 +180,9 @@ def run_task(name, harness, root=None, setup=None, allow_raise=None, both=False,
         shared.loader.entered = {}
         shared.lib.used = set()
         explore(shared, harness, res, allow_raise=allow_raise, both=both)
+        import os as _os
+        if _os.environ.get("PYVC_DEBUG"):
+            print("houdini round", rounds, {k: sorted(v) for k, v in shared.houdini_dead.items()}, flush=True)
         if not shared.houdini_dead or rounds > 12:
             break
         # drop dead candidates and repeat
